@@ -34,6 +34,7 @@ type AlphaOpts struct {
 	ModOps        []string // mpause,mstart,mkill
 	ModUpdates    []CtxUpdate
 	ConsumerOnMod bool // consumer messages on module-owned contexts (must fail)
+	ShortSigners  bool // providers whose address is not 20 bytes answer their requests too (handler level; C13 quantifies over provider addresses of every length)
 	ParamChanges  []ParamSet // governance changes the module parameters (applied through the keeper, as the params module does)
 }
 
@@ -47,7 +48,7 @@ func lifeAlpha(o AlphaOpts) func(sc *Scenario, v *View) []Action {
 			if r == nil {
 				continue
 			}
-			if len(r.Provider) != 20 {
+			if len(r.Provider) != 20 && !o.ShortSigners {
 				continue // only 20-byte addresses can sign a message on a real chain
 			}
 			for _, k := range o.RespKinds {
@@ -115,7 +116,7 @@ func lifeAlpha(o AlphaOpts) func(sc *Scenario, v *View) []Action {
 		out = append(out, o.BindOps...)
 		for _, ps := range o.ParamChanges {
 			p := ps
-			if v.Params.MaxRequestTimeout == p.MaxTimeout && v.Params.ServiceFeeTax.Equal(sdk.MustNewDecFromStr(p.Tax)) && v.Params.SlashFraction.Equal(sdk.MustNewDecFromStr(p.Slash)) && v.Params.MinDeposit.AmountOf(denom).Int64() == p.MinDeposit {
+			if v.Params.MaxRequestTimeout == p.MaxTimeout && v.Params.ServiceFeeTax.Equal(sdk.MustNewDecFromStr(p.Tax)) && v.Params.SlashFraction.Equal(sdk.MustNewDecFromStr(p.Slash)) && v.Params.MinDeposit.AmountOf(denom).Int64() == p.MinDeposit && v.Params.MinDepositMultiple == p.Multiple && v.Params.BaseDenom == p.baseDenom() {
 				continue // already in force
 			}
 			out = append(out, Action{Name: "gov(" + p.Name + ")", Kind: "gov", Tmpl: -1, Signer: XX,
@@ -327,6 +328,10 @@ func bindOpsNames() []Action {
 		actUpdate("a", "P1", "O1", 0, "p3vv", 0),
 		actUpdate("ab", "P1", "O1", 0, "p1t", 2),
 		actDisable("a", "P1", "O1"), actEnable("a", "P1", "O1", 0),
+		// pricing texts the schema refuses, with and without a deposit
+		actUpdate("a", "P1", "O1", 0, "p1x", 0), actUpdate("a", "P1", "O1", 5, "p1x", 0), actUpdate("a", "P1", "O1", 0, "p1d", 0),
+		// a provider address with zero bytes (the separator of string keys)
+		actBind("a", "P0", "O1", 10, "p1", 1), actBind("ab", "P0", "O1", 10, "p2", 1),
 	}
 }
 
@@ -402,6 +407,47 @@ func scFeesSelf(ps ParamSet, depth, blocks, msgs int) *Scenario {
 	return sc
 }
 
+// scFeesLengths: providers of 1, 20 and 21 bytes, each a byte-prefix of the next, all earning: Pp and PL owned by O1,
+// P1 (between them in key order) by O2. The messages are delivered at handler level; no chain lets a 1- or 21-byte
+// address sign, but C13 quantifies over provider addresses of every length.
+func scFeesLengths(ps ParamSet, depth, blocks, msgs int) *Scenario {
+	o := AlphaOpts{RespKinds: []string{"ok"}, ShortSigners: true,
+		Withdraw: []string{"O1:", "O1:Pp", "O1:PL", "O2:", "O2:P1"},
+		SetW:     []string{"O1:W1"}}
+	sc := &Scenario{
+		Name: "S-FEES(provider lengths)", Params: ps,
+		Funds: []Funding{{O1, 100}, {O2, 100}, {C1, 60}}, Extra: allAccounts,
+		Setup: []Action{actDefine("a", "AU"),
+			actBind("a", "Pp", "O1", 10, "p2", 1), actBind("a", "P1", "O2", 10, "p2", 1), actBind("a", "PL", "O1", 10, "p3vv", 1)},
+		Templates: []Template{{Name: "feeslen", Consumer: "C1", Service: "a", Providers: []string{"Pp", "P1", "PL"}, Cap: 5, Timeout: 3}},
+		Alpha:     lifeAlpha(o),
+		Depth:     depth, MaxBlocks: blocks, MaxMsgs: msgs,
+	}
+	sc.Setup = append(sc.Setup, sc.actCall(0), actE())
+	return sc
+}
+
+// scHuge: prices, deposits, fee caps and balances beyond int64 (2^63 and 2^100 base units).
+func scHuge(ps ParamSet, depth, blocks, msgs int) *Scenario {
+	const p63, d63 = "9223372036854775808", "18446744073709551616"                                 // 2^63, 2^64 (= price x multiple 2)
+	const p100, d100 = "1267650600228229401496703205376", "2535301200456458802993406410752"        // 2^100, 2^101
+	sc := &Scenario{
+		Name: "S-HUGE", Params: ps,
+		Funds: []Funding{{O1, -36}, {O2, -36}, {C1, -36}, {C2, 5}}, Extra: allAccounts, // 10^36 each
+		Setup: []Action{actDefine("a", "AU"), actBindBig("a", "P1", "O1", d63, p63, 1), actBindBig("a", "P2", "O2", d100, p100, 1)},
+		Templates: []Template{
+			{Name: "huge63", Consumer: "C1", Service: "a", Providers: []string{"P1"}, CapBig: p63, Timeout: 1, Repeated: true, Freq: 1, Total: 2},
+			{Name: "huge100", Consumer: "C1", Service: "a", Providers: []string{"P1", "P2"}, CapBig: p100, Timeout: 1},
+			{Name: "hugepoor", Consumer: "C2", Service: "a", Providers: []string{"P1"}, CapBig: p100, Timeout: 1},
+			{Name: "hugesuper", Consumer: "C2", Service: "a", Providers: []string{"P2"}, CapBig: p100, Timeout: 1, Super: true},
+		},
+		Alpha: lifeAlpha(AlphaOpts{RespKinds: []string{"ok", "bad"}, Withdraw: []string{"O1:", "O2:P2"},
+			BindOps: []Action{actDisable("a", "P1", "O1"), actEnable("a", "P1", "O1", 0), actRefund("a", "P1", "O1")}}),
+		Depth: depth, MaxBlocks: blocks, MaxMsgs: msgs,
+	}
+	return sc
+}
+
 // scTwoServices: provider P1 serves two services with different pricing.
 var tOneAb = Template{Name: "oneab", Consumer: "C1", Service: "ab", Providers: []string{"P1"}, Cap: 9, Timeout: 1, Repeated: true, Freq: 1, Total: 2}
 
@@ -411,6 +457,23 @@ func scTwoServices(ps ParamSet, o AlphaOpts, depth, blocks, msgs int) *Scenario 
 	sc.Funds = lifeFunds(40, 5)
 	sc.Setup = []Action{actDefine("a", "AU"), actDefine("ab", "AU"),
 		actBind("a", "P1", "O1", 10, "p2v", 1), actBind("ab", "P1", "O1", 10, "p5", 1), actBind("a", "P2", "O2", 10, "p1", 1)}
+	return sc
+}
+
+// scModRestart: S-MOD where the other module answers "paused: insufficient balances" by starting the context again
+// from inside the state callback.
+func scModRestart(ps ParamSet, tmpls []Template, o AlphaOpts, depth, blocks, msgs int) *Scenario {
+	sc := scMod(ps, tmpls, o, depth, blocks, msgs)
+	sc.Name = "S-MOD(restart in callback)"
+	sc.Rig.ReentrantRestart = true
+	return sc
+}
+
+// scModSelfKill: S-MOD where the other module kills a context from inside that context's failed response callback.
+func scModSelfKill(ps ParamSet, tmpls []Template, o AlphaOpts, depth, blocks, msgs int) *Scenario {
+	sc := scMod(ps, tmpls, o, depth, blocks, msgs)
+	sc.Name = "S-MOD(kill in response callback)"
+	sc.Rig.ReentrantSelfKill = true
 	return sc
 }
 
